@@ -53,7 +53,8 @@ MonStep(m, e, l) ==
             s == m.sel
             conj == s.has /\ s.ok /\ s.adjacent /\ e.obid = s.obid /\ e.seq = Seq16(s.seq + 1)
             must == conj /\ s.pure /\ e.t - s.t0 <= m.cfg.select_to - 2
-            mustnot == ~isRetransOp /\ (~conj \/ e.t - s.tlast > m.cfg.select_to + 2)
+            \* the age counts from the SELECT that was executed, not from its retransmissions
+            mustnot == ~isRetransOp /\ (~conj \/ e.t - s.t0 > m.cfg.select_to + 2)
             nobj == Len(SelectSeq(e.robjs, LAMBDA o : o.g \in {12, 41}))
             m1 == IF isRetransOp /\ ops > 0
                     THEN V(m, "operated-twice", l, "retransmitted OPERATE actuated again") ELSE m
